@@ -229,6 +229,20 @@ def worker(sh):
             for cut in (16, 32, 40, 47):
                 variants += [A[:cut] + bytes(48 - cut), A[:cut] + bytes(rng.getrandbits(8) for _ in range(48 - cut))]
             variants += [bytes(16) + A[16:], bytes([A[0] ^ 1]) + A[1:], A[:47] + bytes([A[47] ^ 1])]
+            # the same words in another order, and edits that leave every word-wise xor / sum of the hash unchanged: what a digest-of-the-
+            # digest key (a folded tag, a checksum) cannot tell apart
+            for wlen in (8, 4, 16):
+                ws = [A[i:i + wlen] for i in range(0, 48, wlen)]
+                i, j = rng.sample(range(len(ws)), 2)
+                sw = list(ws); sw[i], sw[j] = sw[j], sw[i]
+                variants.append(b''.join(sw))
+                variants.append(b''.join(ws[1:] + ws[:1]))
+            x = bytearray(A); bit = 1 << rng.randrange(8); o = rng.randrange(8); x[o] ^= bit; x[o + 8 * rng.randrange(1, 6)] ^= bit
+            variants.append(bytes(x))
+            x = bytearray(A); o = rng.randrange(40); d = rng.randrange(1, 256)
+            if x[o + 7] + d < 256 and x[o + 7 + 8 if o + 15 < 48 else o + 7] - d >= 0 and o + 15 < 48:
+                x[o + 7] += d; x[o + 15] -= d
+                variants.append(bytes(x))
             seq = [A]
             for v in variants[1:]:
                 seq += [v, A] if rng.random() < 0.5 else [A, v]
